@@ -259,13 +259,19 @@ func (w *world) reloadBySignal(in casket.Input) (*casket.Instance, error) {
 	default:
 	}
 	old := w.base
+	hooksBefore := len(casket.ListPlugins()["event_hooks"])
 	if err := syscall.Kill(os.Getpid(), syscall.SIGUSR1); err != nil {
 		return nil, err
 	}
 	select {
 	case r := <-sigDone:
 		if r == "err" {
-			time.Sleep(2 * time.Millisecond) // the handler restores the hooks right after Restart returned
+			// the handler restores the hooks after Restart returned (the gate fired inside Restart, and
+			// the handler runs in its own goroutine): give it up to half a second to bring the
+			// registry back to what it was - what is there after that is what gets observed
+			for i := 0; i < 500 && len(casket.ListPlugins()["event_hooks"]) != hooksBefore; i++ {
+				time.Sleep(time.Millisecond)
+			}
 			return nil, fmt.Errorf("reload by SIGUSR1 failed")
 		}
 	case <-time.After(20 * time.Second):
